@@ -23,6 +23,8 @@ use std::task::{Context, Poll, Wake, Waker};
 #[derive(Clone, Copy, Debug, PartialEq, Eq, Serialize, Deserialize)]
 pub enum POp {
     Write(u32),
+    /// `write_all`: as many `write` calls (and automatic flushes) as the chunk size requires
+    WriteAll(u32),
     Flush,
     /// Block until the consumer has received every byte flushed so far (or has terminated).
     Wait,
@@ -335,6 +337,33 @@ fn producer(sched: Arc<Sched>, mut w: crate::props::stream::SWriter, case: Sched
             break;
         }
         match *op {
+            POp::WriteAll(n) => {
+                let buf: Vec<u8> = (0..n as u64).map(|k| payload_byte(Payload::Hash, pos + k)).collect();
+                let r = crate::panics::guard(|| w.write_all(&buf));
+                let mut st = sched.m.lock().unwrap();
+                match r {
+                    Ok(Ok(())) => {
+                        st.accepted.extend_from_slice(&buf);
+                        pos += n as u64;
+                        if case.gzip.is_none() {
+                            let total = st.model_buf + n as usize;
+                            st.flushed = st.accepted.len() - total % case.chunk;
+                            st.model_buf = total % case.chunk;
+                        }
+                        if st.aborted.is_some() && n > 0 {
+                            st.violate("abort:write-ok-after-abort", format!("op {i} write_all succeeded after abort"));
+                        }
+                        st.ev(format!("P write_all({n})->Ok"));
+                    }
+                    Ok(Err(_)) => {
+                        if st.aborted.is_none() {
+                            st.violate("w:write-failed-live", format!("op {i} write_all failed on a live body"));
+                        }
+                        st.ev(format!("P write_all({n})->Err"));
+                    }
+                    Err(m) => st.violate("panic:producer", format!("op {i} write_all panicked: {m}")),
+                }
+            }
             POp::Write(n) => {
                 let buf: Vec<u8> = (0..n as u64).map(|k| payload_byte(Payload::Hash, pos + k)).collect();
                 let r = crate::panics::guard(|| w.write(&buf));
@@ -870,9 +899,9 @@ pub fn configs() -> Vec<CCfg> {
 
 fn random_strategy(with_abort: bool) -> BoxedStrategy<SchedCase> {
     let op = if with_abort {
-        prop_oneof![3 => (1u32..=5).prop_map(POp::Write), 2 => Just(POp::Flush), 2 => Just(POp::Wait), 1 => Just(POp::Abort)].boxed()
+        prop_oneof![30 => (1u32..=5).prop_map(POp::Write), 20 => Just(POp::Flush), 20 => Just(POp::Wait), 10 => Just(POp::Abort), 4 => (2u32..=12).prop_map(POp::WriteAll), 1 => (130u32..=300).prop_map(POp::WriteAll)].boxed()
     } else {
-        prop_oneof![3 => (1u32..=5).prop_map(POp::Write), 2 => Just(POp::Flush), 2 => Just(POp::Wait)].boxed()
+        prop_oneof![30 => (1u32..=5).prop_map(POp::Write), 20 => Just(POp::Flush), 20 => Just(POp::Wait), 4 => (2u32..=12).prop_map(POp::WriteAll), 1 => (130u32..=300).prop_map(POp::WriteAll)].boxed()
     };
     (
         vec(op, 0..=6),
@@ -908,7 +937,7 @@ fn random_strategy(with_abort: bool) -> BoxedStrategy<SchedCase> {
 pub const META_C10: Meta = Meta {
     id: "C10",
     level: "exploration",
-    rule: "Schedule enumeration on the real chunker code through hook H1: producer programs of up to 4 operations (thorough 5) over {write(1), write(2), flush, wait-until-delivered} + drop, chunk size 2 (identity) and of up to 3 operations with the gzip writer (chunk size 6; every operation is several chunker writes), against a consumer that parks on Pending, with same/fresh waker per poll (wakes to superseded wakers are ignored), 0 or 2 spurious polls, with/without is_end_stream/size_hint sampling; every schedule with <= 2 preemptions (thorough 3) is executed by stateless DFS (two real threads, exactly one runs, hand-over at lock acquisitions, wake() and operation boundaries); plus proptest over programs of <= 6 operations, chunk sizes 1-3 and random choice vectors (unbounded preemptions). Oracle (history invariants): no quiescent state with the consumer parked and un-woken while data, end or abort is undelivered; everything flushed is received in order before a clean end; bounded polls after the writer is gone. Non-trivial = schedule in which the consumer parked at least once or an actor was preempted; distinct by (program, config, choice vector).",
+    rule: "Schedule enumeration on the real chunker code through hook H1: producer programs of up to 4 operations (thorough 5) over {write(1), write(2), flush, wait-until-delivered} + drop (random programs also write_all of up to 300 bytes, i.e. hundreds of chunks), chunk size 2 (identity) and of up to 3 operations with the gzip writer (chunk size 6; every operation is several chunker writes), against a consumer that parks on Pending, with same/fresh waker per poll (wakes to superseded wakers are ignored), 0 or 2 spurious polls, with/without is_end_stream/size_hint sampling; every schedule with <= 2 preemptions (thorough 3) is executed by stateless DFS (two real threads, exactly one runs, hand-over at lock acquisitions, wake() and operation boundaries); plus proptest over programs of <= 6 operations, chunk sizes 1-3 and random choice vectors (unbounded preemptions). Oracle (history invariants): no quiescent state with the consumer parked and un-woken while data, end or abort is undelivered; everything flushed is received in order before a clean end; bounded polls after the writer is gone. Non-trivial = schedule in which the consumer parked at least once or an actor was preempted; distinct by (program, config, choice vector).",
     assumptions: &[
         "interleavings are at lock / wake / operation granularity: complete for this code because every shared field sits behind the one instrumented mutex",
         "no weak-memory effects (all sharing goes through std::sync::Mutex)",
